@@ -240,7 +240,7 @@ impl Map64 {
     }
 
     fn space_index(addr: Address) -> Option<usize> {
-        if addr > vm_layout().heap_end {
+        if addr >= vm_layout().heap_end {
             return None;
         }
         Some(addr >> vm_layout().space_shift_64())
